@@ -21,7 +21,7 @@ EditInt == \E k \in IntKeys, v \in Grid \cup {Absent} :
               /\ w[k] # v /\ w' = [w EXCEPT ![k] = v]
 EditOther == \/ \E s \in {"short", "long", "nonhex", "missing", "odd", "digits", "zeros", "lzdigits", "shortdigits", "zero1"} : w.seed = "ok" /\ w' = [w EXCEPT !.seed = s]
              \/ (w.interface = "ok" /\ w' = [w EXCEPT !.interface = "missing"])
-             \/ \E c \in {"on", "yes", "off"} : w.client_stats # c /\ w' = [w EXCEPT !.client_stats = c]
+             \/ \E c \in StatsTexts : w.client_stats # c /\ w' = [w EXCEPT !.client_stats = c]
              \/ (w.persistence_directory = "absent" /\ w' = [w EXCEPT !.persistence_directory = "dir"])
              \/ (src = "file" /\ ~w.unknown_key /\ w' = [w EXCEPT !.unknown_key = TRUE])
              \/ (src = "file" /\ ~w.multidoc /\ w' = [w EXCEPT !.multidoc = TRUE])
